@@ -12,7 +12,10 @@ def _path(E, tag):
         import tempfile
         import os
         return os.path.join(tempfile.mkdtemp(prefix='tv_c19_'), tag + '.TT')
-    return '/virtual/' + tag + '.TT'
+    p = '/virtual/' + tag + '.TT'
+    getattr(E.tn, '_MAPPED', set()).discard(p)          # a fresh file for every run
+    getattr(E.tn, '_STORE', {}).pop(p, None)
+    return p
 
 
 def _cleanup(E, path):
@@ -22,11 +25,17 @@ def _cleanup(E, path):
         shutil.rmtree(os.path.dirname(path), ignore_errors=True)
 
 
-def _roundtrip(E, x, tag):
+def _roundtrip(E, x, tag, overwrite_with=None):
     path = _path(E, tag)
     try:
         E.tt.save(x, path)
         y = E.tt.load(path)
+        if overwrite_with is not None:
+            # history: the file is written again (checkpoint loop) while the loaded object is still in use
+            E.tt.save(overwrite_with, path)
+            z = E.tt.load(path)
+            for k, (a, b) in enumerate(zip(overwrite_with.cores, z.cores)):
+                E.eq('second_core%d' % k, b, a)
     finally:
         _cleanup(E, path)
     E.true('is_tt', isinstance(y, E.tt.TT))
@@ -64,7 +73,10 @@ def save_load_cores(E, s):
             x = x.conj()
         elif s['conj'] == 'sliced':
             x = x[tuple(slice(0, None, 2) for n in s['N']) * (2 if 'M' in s else 1)]
-    _roundtrip(E, x, 'cores')
+    other = None
+    if s.get('overwrite'):
+        other, _ = tt_input(E, 'z', s['N'], s['R'], s['dtype'], s.get('M'))
+    _roundtrip(E, x, 'cores', other)
 
 
 @scenario
